@@ -23,6 +23,7 @@ class TokFacts:
         self.kind_to_token = {}  # fn name -> {kind variant: token variant}
         self.reserved = {}  # lexeme -> token variant
         self.punct = {}  # char -> token variant
+        self.all_fns = []
         self.fns = {}
         self.src_field = None
 
@@ -162,7 +163,11 @@ def extract(syn):
     tf.driver = driver
     # all fns of the file (free and in impls)
     for (pp, im, fn) in syn.all_fns(path=p):
-        tf.fns[fn["name"]] = fn
+        # (a method and a free function may share a name — `tokenize` — : methods win the by-name table the interpreter
+        #  calls through, every function is kept in all_fns for the scans below)
+        if fn["name"] not in tf.fns or im is not None:
+            tf.fns[fn["name"]] = fn
+        tf.all_fns.append((fn["name"], fn))
     # source field: <self.FIELD>.char_indices()
     root, chain = method_chain(loop["expr"])
     if ident_of(root) == "self" and len(chain) == 2 and chain[0][0] == "field":
@@ -258,7 +263,7 @@ def extract(syn):
         if it["k"] == "StructDef" and it["fields"]["shape"] == "tuple" and len(it["fields"]["list"]) == 1 and "NonZeroUsize" in it["fields"]["list"][0]["ty"]:
             tf.count_newtype = it["name"]
     # constructor: a struct literal that sets the state field
-    for name, fn in tf.fns.items():
+    for name, fn in tf.all_fns:
         for s_ in nodes(fn["body"], "Struct"):
             for fl in s_["fields"]:
                 if fl["member"] == tf.state_field and fl["expr"]["k"] == "Path" and len(fl["expr"]["path"]["segs"]) == 2 and fl["expr"]["path"]["segs"][0] == tf.state_enum:
